@@ -9,6 +9,7 @@ import (
 	"strconv"
 	"strings"
 
+	"github.com/alecthomas/participle/v2"
 	"github.com/alecthomas/participle/v2/lexer"
 )
 
@@ -24,9 +25,10 @@ const (
 	KSub // @@ ; Prod>=0 production, else Uni>=0 union
 	KNeg
 	KLook
+	KPars // @@ into a field whose type implements participle.Parseable (PTok: consumes one token)
 )
 
-var kindNames = []string{"Lit", "Ref", "Seq", "Alt", "Group", "Cap", "Sub", "Neg", "Look"}
+var kindNames = []string{"Lit", "Ref", "Seq", "Alt", "Group", "Cap", "Sub", "Neg", "Look", "Pars"}
 
 // Expr is a node of a production's expression.
 type Expr struct {
@@ -80,9 +82,12 @@ const (
 	FInt                // int
 	FInts               // []int
 	FInt8               // int8
+	FPars               // *PTok (user-implemented production)
+	FParsV              // PTok
+	FParss              // []PTok
 )
 
-var fkindNames = []string{"string", "[]string", "bool", "*string", "lexer.Token", "[]lexer.Token", "*P", "[]*P", "P", "[]P", "U", "[]U", "NamedString", "NamedBool", "*bool", "int", "[]int", "int8"}
+var fkindNames = []string{"string", "[]string", "bool", "*string", "lexer.Token", "[]lexer.Token", "*P", "[]*P", "P", "[]P", "U", "[]U", "NamedString", "NamedBool", "*bool", "int", "[]int", "int8", "*PTok", "PTok", "[]PTok"}
 
 func (k FKind) String() string { return fkindNames[k] }
 
@@ -212,7 +217,7 @@ func (e *Expr) toks(out *[]tagTok, first bool) {
 			add("{")
 			body.toks(out, true)
 			add("}")
-		case e.Mod != "" && e.Style%3 == 2 && (isLeaf(body) || body.Kind == KSub || (body.Kind == KCap && true) || body.Kind == KNeg):
+		case e.Mod != "" && e.Style%3 == 2 && (isLeaf(body) || body.Kind == KSub || body.Kind == KPars || body.Kind == KCap || body.Kind == KNeg):
 			// bare modifier on a single term: `@Ident?`, `"x"*`, `@@+`, `~";"*`
 			body.toks(out, first)
 			add(e.Mod)
@@ -234,7 +239,7 @@ func (e *Expr) toks(out *[]tagTok, first bool) {
 			k.toks(out, true)
 			add(")")
 		}
-	case KSub:
+	case KSub, KPars:
 		*out = append(*out, tagTok{"@", e.Field}, tagTok{"@", -1})
 	case KNeg:
 		if e.Style%2 == 1 && first {
@@ -345,6 +350,22 @@ type PosMixin struct {
 // MyPos is a position type convertible from lexer.Position (PosStyle 2).
 type MyPos lexer.Position
 
+// PTok is a production implemented by user code (participle.Parseable): it consumes exactly one token.
+type PTok struct {
+	V string
+}
+
+// Parse implements participle.Parseable.
+func (p *PTok) Parse(lex *lexer.PeekingLexer) error {
+	t := lex.Peek()
+	if t.EOF() {
+		return participle.NextMatch
+	}
+	lex.Next()
+	p.V = t.Value
+	return nil
+}
+
 type NamedString string
 type NamedBool bool
 
@@ -368,6 +389,7 @@ var (
 	tEmpty  = reflect.TypeOf(struct{}{})
 	tInt    = reflect.TypeOf(int(0))
 	tInt8   = reflect.TypeOf(int8(0))
+	tPTok   = reflect.TypeOf(PTok{})
 )
 
 var typeSerial uint64
@@ -393,6 +415,10 @@ func (g *Grammar) Types() []reflect.Type {
 			sf = append(sf, reflect.StructField{Name: "PosMixin", Type: tMixin, Anonymous: true})
 		case 2:
 			sf = append(sf, reflect.StructField{Name: "Pos", Type: tMyPos}, reflect.StructField{Name: "EndPos", Type: tMyPos}, reflect.StructField{Name: "Tokens", Type: tToks})
+		case 4:
+			// the node's own fields shadow the same-named fields of the embedded mixin
+			sf = append(sf, reflect.StructField{Name: "PosMixin", Type: tMixin, Anonymous: true},
+				reflect.StructField{Name: "Pos", Type: tPos}, reflect.StructField{Name: "EndPos", Type: tPos}, reflect.StructField{Name: "Tokens", Type: tToks})
 		}
 		for fi, f := range p.Fields {
 			var ft reflect.Type
@@ -433,6 +459,12 @@ func (g *Grammar) Types() []reflect.Type {
 				ft = reflect.SliceOf(tInt)
 			case FInt8:
 				ft = tInt8
+			case FPars:
+				ft = reflect.PtrTo(tPTok)
+			case FParsV:
+				ft = tPTok
+			case FParss:
+				ft = reflect.SliceOf(tPTok)
 			}
 			sf = append(sf, reflect.StructField{Name: fmt.Sprintf("F%d", fi), Type: ft, Tag: tags[fi]})
 		}
